@@ -3,7 +3,6 @@
 
 use crate::node::{ByValue, Extra, FieldProbe, Node, Walk};
 use core::marker::PhantomData;
-use flatty::prelude::*;
 use flatty::{Error, FlatWrap};
 use refmodel::ops::{Kind, OpOut, PathOp};
 use refmodel::{Desc, Value};
@@ -58,6 +57,7 @@ pub trait ShapeDyn: Send + Sync {
     fn sized_info(&self) -> Option<(usize, usize, usize)>;
     fn extra(&self) -> Extra;
     fn has_default(&self) -> bool;
+    fn declared_portable(&self) -> bool;
     fn native_default_bytes(&self) -> Option<Vec<u8>>;
 
     fn validate(&self, bytes: &[u8]) -> Result<(), Error>;
@@ -112,6 +112,9 @@ impl<T: Node + ?Sized + 'static> ShapeDyn for ShapeOf<T> {
     }
     fn native_default_bytes(&self) -> Option<Vec<u8>> {
         T::native_default_bytes()
+    }
+    fn declared_portable(&self) -> bool {
+        T::declared_portable()
     }
     fn validate(&self, bytes: &[u8]) -> Result<(), Error> {
         T::validate(bytes)
